@@ -1,0 +1,14 @@
+//go:build verif
+
+package vestingsc
+
+import "github.com/0chain/common/core/util"
+
+// VerifEntityPrototypes returns the stored types of this contract (verification harness, C08).
+func VerifEntityPrototypes() []func() util.MPTSerializable {
+	return []func() util.MPTSerializable{
+		func() util.MPTSerializable { return newVestingPool() },
+		func() util.MPTSerializable { return new(clientPools) },
+		func() util.MPTSerializable { return new(config) },
+	}
+}
